@@ -97,11 +97,38 @@ func (f *FieldCopyToGenerator) Generate() *j.Statement {
 
 // nextField reads current field value from Terraform object and asserts it's type against expected
 func (f *FieldCopyToGenerator) nextField(v string, g func(g *j.Group)) *j.Statement {
+	if f.readsThroughEmbedded() {
+		// embedded := obj.MaxAge; if embedded == nil { embedded = &MaxAge{} }
+		body := g
+		g = func(g *j.Group) {
+			g.Id("embedded").Op(":=").Id("obj." + f.ParentIsOptionalEmbedFieldName)
+			g.If(j.Id("embedded").Op("==").Nil()).Block(
+				j.Id("embedded").Op("=").Id("&" + f.ParentIsOptionalEmbedFullType + "{}"),
+			)
+			g.Id("_").Op("=").Id("embedded")
+			body(g)
+		}
+	}
+
 	return j.Block(
 		// _, ok := ft.AttrsTypes["key"]
 		j.List(j.Id(v), j.Id("ok")).Op(":=").Id("tf.AttrTypes").Index(j.Lit(f.NameSnake)),
 		j.If(j.Id("!ok")).BlockFunc(f.errAttrMissingDiag).Else().BlockFunc(g),
 	)
+}
+
+// readsThroughEmbedded returns true for a list, map or message promoted from a nullable embedded message.
+// It can not be read via obj while the embedded message is nil: an empty message is read instead.
+func (f *FieldCopyToGenerator) readsThroughEmbedded() bool {
+	return f.ParentIsOptionalEmbed && f.Kind != PrimitiveKind && f.Kind != CustomKind
+}
+
+// fieldName returns the expression the field value is read from
+func (f *FieldCopyToGenerator) fieldName() string {
+	if f.readsThroughEmbedded() {
+		return "embedded." + f.Name
+	}
+	return "obj." + f.Name
 }
 
 // getAttr v, ok := tf.Attrs["name"]
@@ -257,7 +284,7 @@ func (f *FieldCopyToGenerator) genPrimitive() *j.Statement {
 // genObject generates CopyTo statement for a nested message
 func (f *FieldCopyToGenerator) genObject() *j.Statement {
 	m := NewMessageCopyToGenerator(f.Message, f.i)
-	fieldName := "obj." + f.Name
+	fieldName := f.fieldName()
 
 	return f.nextField("a", func(g *j.Group) {
 		if f.OneOfName != "" {
@@ -283,7 +310,7 @@ func (f *FieldCopyToGenerator) genOneOfStub(g *j.Group) {
 }
 
 func (f *FieldCopyToGenerator) genListOrMap() *j.Statement {
-	fieldName := "obj." + f.Name
+	fieldName := f.fieldName()
 
 	var mk j.Code
 
